@@ -760,8 +760,10 @@ pub fn gen_instance(rng: &mut Rng, p: &Profile) -> Inst {
     }
     // now and then a maintenance slot one to three days away from the timetable (the planning
     // horizon, to which dead-head durations are clamped, must cover the slots too)
+    let mut far_slot: Option<usize> = None;
     if !maint.is_empty() && rng.chance(6) {
         let k = rng.below(maint.len() as u64) as usize;
+        far_slot = Some(maint[k].loc);
         let shift = 86400 * rng.range(1, 3);
         if rng.chance(75) {
             maint[k].start += shift;
@@ -834,6 +836,19 @@ pub fn gen_instance(rng: &mut Rng, p: &Profile) -> Inst {
             };
             dh_dur[a][b] = dur;
             dh_dist[a][b] = dist;
+        }
+    }
+    // a slot days away: often only reachable by a dead-head trip longer than the timetable's own
+    // span, so that the clamp of dead-head durations to the planning horizon decides reachability
+    if let Some(l) = far_slot {
+        if nlocs > 1 && rng.chance(60) {
+            if let Some(b) = dh_idx.iter().position(|&x| x == l) {
+                for a in 0..nlocs {
+                    if a != b {
+                        dh_dur[a][b] = GRID * 1000;
+                    }
+                }
+            }
         }
     }
     // metre resolution (odd distances): sums that differ by a single metre (C08: the levels of the
